@@ -37,16 +37,18 @@ META = {
                   "the PreviewTree accessors, the node-level effect of apply) + correspondence on random op "
                   "sequences against real 2a working trees (preview listing vs tree after apply, raw conflict "
                   "sets, resolver outcomes)"),
-    "level_text": ("partial (P-core). Proved for every transform state and base tree: without raw conflicts and "
-                   "under two executable guards the preview shows for every trans id the same parent, name, kind, "
-                   "content, executable bit as the node-level result of apply, and for every file id the same "
-                   "inventory entry as the inventory after _generate_inventory_delta; both guards are needed "
-                   "(machine-checked refutations, reproduced on the real code: preview content/exec of moved "
-                   "unmodified files, replaced directory that keeps children). The resolve loop ends after at most "
-                   "10 passes with no raw conflicts or an error and never touches the tree; it is refuted that the "
-                   "error is always MalformedTransform (KeyError/ValueError escape). Per-resolver decrease lemmas "
-                   "for four resolvers. Path-level rendering and the on-disk rename sequence are tied only by the "
-                   "correspondence run (disk phase: C13)."),
+    "level_text": ("partial (P-core); the property is false of the code in several ways. Proved for every base "
+                   "tree and transform state: without overwrite conflicts and outside the replaced-directory "
+                   "situation (executable guard late_failure) every trans id the preview shows with contents is, "
+                   "after the node-level model of apply, a node of the same kind inside the node of its final "
+                   "parent under its final name; the inventory entries written by _generate_inventory_delta are "
+                   "the entries the preview shows; a new versioned file is previewed with the installed contents. "
+                   "Machine-checked refutations (each reproduced on the real code): preview content/exec of moved "
+                   "unmodified files, apply failing after a clean conflict check, resolve_conflicts raising "
+                   "KeyError/ValueError. The resolve loop runs at most 10 passes, a clean result has no raw "
+                   "conflicts, MalformedTransform only after all passes, and the tree is not touched; four "
+                   "resolvers provably remove their conflict. Path rendering, untouched inventory entries and "
+                   "the rename sequence of apply are tied only by the correspondence run (disk phase: C13)."),
     "level_note": ("Trusted: Coq kernel, vm_compute, the hand model's correspondence (bounded sampling), the "
                    "environment model of apply_inventory_delta."),
     "design_ref": "DESIGN.md §5 C14",
@@ -59,7 +61,10 @@ META = {
                     "only directly below versioned directories; file ids unique",
                     "default orphan policy (conflict); path_tree=None in conflict_pass",
                     "bzrformats apply_inventory_delta removes old entries by file id and adds the new ones",
-                    "limbo placement (_limbo_children) is not modelled (C13)"],
+                    "dirstate update_by_delta drops unmentioned entries below a parent that is no directory any more "
+                    "and raises InconsistentDelta for written entries without directory parent / duplicate siblings",
+                    "limbo placement (_limbo_children) is not modelled (C13); cancel_creation only below the root",
+                    "git trees: oracle only (no model), listings not compared"],
     "rule": ("random op sequences (create_path/new_file/new_directory/create_file/create_directory/delete_contents/"
              "adjust_path/version_file/unversion_file/set_executability/cancel_*) over generated base trees, biased "
              "to parent loops, duplicates, missing and non-directory parents; non-trivial = at least one raw "
